@@ -3,6 +3,7 @@
   ("extension" of the pass state), and the ledger invariant that every reservation respects (C03).
 -/
 import PjVerif.Lemmas.SchedFill
+import PjVerif.Lemmas.Rel
 import PjVerif.Spec.Sched
 namespace Pj
 
@@ -17,43 +18,663 @@ structure Ext (σ σ' : SS) : Prop where
   res : ∃ r, σ'.res = σ.res ++ r ∧ ∀ p ∈ r, ∀ q ∈ σ.res, q.1 ≠ p.1
   reads : σ.reads ≤ σ'.reads
 
-theorem Ext.refl (σ : SS) : Ext σ σ := by
-  sorry
+theorem Ext.refl (σ : SS) : Ext σ σ :=
+  ⟨⟨[], by simp, by simp, List.nodup_nil⟩, fun _ _ => rfl, fun _ _ => rfl, ⟨[], by simp, by simp⟩,
+    ⟨[], by simp, by simp⟩, Nat.le_refl _⟩
+
+theorem Ext.done_sub {σ σ' : SS} (h : Ext σ σ') {x : Uid} (hx : x ∈ σ.done) : x ∈ σ'.done := by
+  obtain ⟨l, hl, _⟩ := h.done
+  rw [hl]; exact List.mem_append_left _ hx
 
 theorem Ext.trans {σ σ' σ'' : SS} (h1 : Ext σ σ') (h2 : Ext σ' σ'') : Ext σ σ'' := by
-  sorry
+  obtain ⟨l1, hl1, hn1, hd1⟩ := h1.done
+  obtain ⟨l2, hl2, hn2, hd2⟩ := h2.done
+  obtain ⟨r1, hr1, hq1⟩ := h1.rows
+  obtain ⟨r2, hr2, hq2⟩ := h2.rows
+  obtain ⟨s1, hs1, hp1⟩ := h1.res
+  obtain ⟨s2, hs2, hp2⟩ := h2.res
+  refine ⟨⟨l1 ++ l2, by rw [hl2, hl1, List.append_assoc], ?_, ?_⟩, ?_, ?_, ⟨r1 ++ r2, by rw [hr2, hr1, List.append_assoc], ?_⟩,
+    ⟨s1 ++ s2, by rw [hs2, hs1, List.append_assoc], ?_⟩, Nat.le_trans h1.reads h2.reads⟩
+  · intro x hx
+    rcases List.mem_append.1 hx with hx | hx
+    · exact hn1 x hx
+    · exact fun hc => hn2 x hx (h1.done_sub hc)
+  · refine List.nodup_append.2 ⟨hd1, hd2, ?_⟩
+    intro a ha b hb hab
+    subst hab
+    exact hn2 a hb (by rw [hl1]; exact List.mem_append_right _ ha)
+  · intro x hx
+    rw [h2.frozen x (h1.done_sub hx), h1.frozen x hx]
+  · intro x hx
+    have hx' : x ∉ σ'.done := fun hc => hx (h2.done_sub hc)
+    rw [h2.untouched x hx, h1.untouched x hx']
+  · intro x hx
+    rcases List.mem_append.1 hx with hx | hx
+    · exact ⟨h2.done_sub (hq1 x hx).1, (hq1 x hx).2⟩
+    · exact ⟨(hq2 x hx).1, fun hc => (hq2 x hx).2 (h1.done_sub hc)⟩
+  · intro p hp q hq
+    rcases List.mem_append.1 hp with hp | hp
+    · exact hp1 p hp q hq
+    · exact hp2 p hp q (by rw [hs1]; exact List.mem_append_left _ hq)
+
+/-! ### stage-wise frames -/
+
+/-- the usage row a placement of `t` writes for one `(day, units)` pair -/
+def mkRow (r : Option Nat) (t : Uid) (p : Int × Rat) : Row := { res := r, day := p.1, task := t, units := p.2 }
+
+/-- a stage of the placement of `t`: only `t`'s fields (and the clock counter) change, and the rows `new` are
+    appended for `t` on its resource -/
+structure Stage (env : Env) (t : Uid) (new : List (Int × Rat)) (σ σ' : SS) : Prop where
+  done : σ'.done = σ.done
+  res : σ'.res = σ.res
+  f : ∀ x, x ≠ t → σ'.f x = σ.f x
+  rows : σ'.rows = σ.rows ++ new.map (mkRow (env.info t).resource t)
+  reads : σ.reads ≤ σ'.reads
+
+theorem Stage.refl (env : Env) (t : Uid) (σ : SS) : Stage env t [] σ σ :=
+  ⟨rfl, rfl, fun _ _ => rfl, by simp, Nat.le_refl _⟩
+
+theorem Stage.trans {env : Env} {t : Uid} {n1 n2 : List (Int × Rat)} {σ σ' σ'' : SS}
+    (h1 : Stage env t n1 σ σ') (h2 : Stage env t n2 σ' σ'') : Stage env t (n1 ++ n2) σ σ'' :=
+  ⟨h2.done.trans h1.done, h2.res.trans h1.res, fun x hx => (h2.f x hx).trans (h1.f x hx),
+    by rw [h2.rows, h1.rows, List.map_append, List.append_assoc], Nat.le_trans h1.reads h2.reads⟩
+
+theorem Stage.cast {env : Env} {t : Uid} {n n' : List (Int × Rat)} {σ σ' : SS}
+    (h : Stage env t n σ σ') (e : n = n') : Stage env t n' σ σ' := e ▸ h
+
+theorem Stage.setF (env : Env) (t : Uid) (σ : SS) (g : Fields → Fields) : Stage env t [] σ (setF σ t g) :=
+  ⟨rfl, rfl, fun x hx => by simp [Pj.setF, upd, hx], by simp [Pj.setF], Nat.le_refl _⟩
+
+theorem Stage.now (env : Env) (t : Uid) (σ : SS) : Stage env t [] σ (now env σ).2 :=
+  ⟨rfl, rfl, fun _ _ => rfl, by simp [Pj.now], by simp [Pj.now]⟩
+
+theorem Stage.addRows (env : Env) (t : Uid) (σ : SS) (new : List (Int × Rat)) :
+    Stage env t new σ (addRows σ (env.info t).resource t new) :=
+  ⟨rfl, rfl, fun _ _ => rfl, rfl, Nat.le_refl _⟩
+
+theorem fillEst_stage (env : Env) (t : Uid) (σ σ' : SS) (h : fillEst env t σ = .ok σ') : Stage env t [] σ σ' := by
+  unfold fillEst at h
+  simp only [bind, Except.bind] at h
+  split at h
+  · cases h
+  · rename_i σ1 h1
+    have s1 : Stage env t [] σ σ1 := by
+      split at h1
+      · cases h1; exact Stage.refl _ _ _
+      · split at h1
+        · cases h1; exact Stage.setF _ _ _ _
+        · split at h1
+          · cases h1
+          · cases h1; exact Stage.setF _ _ _ _
+    have s2 : Stage env t [] σ1 σ' := by
+      split at h
+      · cases h; exact Stage.refl _ _ _
+      · split at h
+        · cases h; exact Stage.setF _ _ _ _
+        · split at h
+          · cases h
+          · cases h; exact Stage.setF _ _ _ _
+    exact s1.trans s2
+
+theorem leftOf_nonneg (σ : SS) (t : Uid) : 0 ≤ leftOf σ t := by
+  unfold leftOf
+  simp only
+  split <;> grind
+
+/-- the rows of one reservation: each fits into what its day still offers, at most one per day
+    (given that the ledger the loop saw had no negative totals) -/
+def GoodNew (cal : Cal) (used : Int → Rat) (new : List (Int × Rat)) : Prop :=
+  (∀ d, 0 ≤ used d) →
+    (∀ p ∈ new, ∃ c, capR cal (p.1 : Rat) = .ok c ∧ 0 < p.2 ∧ p.2 ≤ c - used p.1) ∧
+    (new.map (·.1)).Pairwise (· ≠ ·)
+
+theorem GoodNew.nil (cal : Cal) (used : Int → Rat) : GoodNew cal used [] := by
+  intro _; simp
+
+theorem shiftFwd_good (cal : Cal) (used : Int → Rat) (start : Time) (left : Rat) (e : Time)
+    (rows : List (Int × Rat)) (hl : 0 ≤ left) (h : shiftFwd cal used start left = .ok (e, rows)) :
+    GoodNew cal used rows := by
+  intro hu
+  obtain ⟨h0, h1⟩ := shiftFwd_spec cal used start left e rows hl hu h
+  by_cases hz : left = 0
+  · rw [(h0 hz).2]; simp
+  · obtain ⟨dayL, dauL, hs, _⟩ := h1 (by grind)
+    exact ⟨hs.fits, hs.incr.imp (fun h => Int.ne_of_lt h)⟩
+
+theorem shiftBwd_good (cal : Cal) (used : Int → Rat) (end_ : Time) (left : Rat) (s : Time)
+    (rows : List (Int × Rat)) (hl : 0 ≤ left) (h : shiftBwd cal used end_ left = .ok (s, rows)) :
+    GoodNew cal used rows := by
+  intro hu
+  obtain ⟨h0, h1⟩ := shiftBwd_spec cal used end_ left s rows hl hu h
+  by_cases hz : left = 0
+  · rw [(h0 hz).2]; simp
+  · obtain ⟨dayL, hs, _⟩ := h1 (by grind)
+    exact ⟨hs.fits, hs.decr.imp (fun h => Int.ne_of_gt h)⟩
+
+theorem fwdStart_stage (env : Env) (cal : Cal) (used : Int → Rat) (t : Uid) (m : Time) (σ σ' : SS)
+    (h : fwdStart env cal used t m σ = .ok σ') : Stage env t [] σ σ' := by
+  unfold fwdStart at h
+  simp only at h
+  split at h
+  · cases h; exact Stage.refl _ _ _
+  · split at h
+    · simp only [bind, Except.bind] at h
+      split at h
+      · cases h
+      · cases h
+        exact (Stage.now env t σ).trans (Stage.setF _ _ _ _)
+    · split at h
+      · cases h; exact Stage.setF _ _ _ _
+      · cases h; exact Stage.setF _ _ _ _
+
+theorem bwdEnd_stage (env : Env) (cal : Cal) (used : Int → Rat) (t : Uid) (m m' : Time) (σ σ' : SS)
+    (h : bwdEnd env cal used t m m' σ = .ok σ') : Stage env t [] σ σ' := by
+  unfold bwdEnd at h
+  simp only at h
+  split at h
+  · cases h; exact Stage.refl _ _ _
+  · split at h
+    · simp only [bind, Except.bind] at h
+      split at h
+      · cases h
+      · cases h
+        exact Stage.setF _ _ _ _
+    · split at h
+      · cases h; exact Stage.setF _ _ _ _
+      · cases h; exact Stage.setF _ _ _ _
+
+theorem fwdEnd_stage (env : Env) (cal : Cal) (used : Int → Rat) (t : Uid) (σ σ' : SS)
+    (h : fwdEnd env cal used t σ = .ok σ') : ∃ new, Stage env t new σ σ' ∧ GoodNew cal used new := by
+  unfold fwdEnd at h
+  simp only at h
+  split at h
+  · cases h; exact ⟨[], Stage.refl _ _ _, GoodNew.nil _ _⟩
+  · split at h
+    · simp only [bind, Except.bind] at h
+      split at h
+      · cases h
+      · rename_i v hv
+        obtain ⟨e, rows⟩ := v
+        cases h
+        refine ⟨rows, ?_, shiftFwd_good _ _ _ _ _ _ (leftOf_nonneg _ _) hv⟩
+        exact ((((Stage.now env t σ).trans (Stage.addRows env t _ rows)).trans (Stage.now env t _)).trans
+          (Stage.setF env t _ _)).cast (by simp)
+    · split at h
+      · cases h
+      · cases h; exact ⟨[], Stage.setF _ _ _ _, GoodNew.nil _ _⟩
+
+theorem bwdStart_stage (env : Env) (cal : Cal) (used : Int → Rat) (t : Uid) (m : Time) (σ σ' : SS)
+    (h : bwdStart env cal used t m σ = .ok σ') : ∃ new, Stage env t new σ σ' ∧ GoodNew cal used new := by
+  unfold bwdStart at h
+  simp only at h
+  split at h
+  · simp only [bind, Except.bind] at h
+    split at h
+    · cases h
+    · rename_i v hv
+      obtain ⟨s, rows⟩ := v
+      cases h
+      refine ⟨rows, ?_, shiftBwd_good _ _ _ _ _ _ (leftOf_nonneg _ _) hv⟩
+      exact ((Stage.addRows env t σ rows).trans (Stage.setF env t _ _)).cast (by simp)
+  · split at h
+    · cases h
+    · cases h; exact ⟨[], Stage.setF _ _ _ _, GoodNew.nil _ _⟩
+
+/-! ### the resource table -/
+
+theorem resLookup_spec (res : List (Option Nat × Cal)) (k : Option Nat) :
+    (∃ r, (resLookup res k).1 = res ++ r ∧ ∀ p ∈ r, p.1 = k ∧ ∀ q ∈ res, q.1 ≠ p.1) ∧
+    calOf (resLookup res k).1 k = (resLookup res k).2 ∧
+    ((resLookup res k).1.map (·.1)).contains k = true := by
+  unfold resLookup
+  cases hf : res.find? (fun p => p.1 == k) with
+  | some p =>
+    simp only
+    have hp : p.1 = k := by simpa using List.find?_some hf
+    refine ⟨⟨[], by simp, by simp⟩, by simp [calOf, hf], ?_⟩
+    rw [List.contains_iff_mem]
+    exact List.mem_map.2 ⟨p, List.mem_of_find?_eq_some hf, hp⟩
+  | none =>
+    simp only
+    have hn := List.find?_eq_none.1 hf
+    refine ⟨⟨[(k, defaultCal)], rfl, ?_⟩, ?_, ?_⟩
+    · intro p hp
+      simp only [List.mem_singleton] at hp
+      subst hp
+      exact ⟨rfl, fun q hq => by simpa using hn q hq⟩
+    · simp [calOf, List.find?_append, hf]
+    · simp
+
+theorem calOf_append (res r : List (Option Nat × Cal)) (k : Option Nat)
+    (hk : (res.map (·.1)).contains k = true) : calOf (res ++ r) k = calOf res k := by
+  rw [List.contains_iff_mem] at hk
+  obtain ⟨p, hp, hpk⟩ := List.mem_map.1 hk
+  unfold calOf
+  rw [List.find?_append]
+  cases hf : res.find? (fun p => p.1 == k) with
+  | some q => simp
+  | none =>
+    have := List.find?_eq_none.1 hf p hp
+    simp [hpk] at this
+
+theorem capMid_append (res r : List (Option Nat × Cal)) (k : Option Nat) (d : Int)
+    (hk : (res.map (·.1)).contains k = true) : capMid (res ++ r) k d = capMid res k d := by
+  unfold capMid
+  rw [calOf_append res r k hk]
+
+theorem contains_append_left (res r : List (Option Nat × Cal)) (k : Option Nat)
+    (hk : (res.map (·.1)).contains k = true) : ((res ++ r).map (·.1)).contains k = true := by
+  rw [List.contains_iff_mem] at hk ⊢
+  rw [List.map_append]
+  exact List.mem_append_left _ hk
+
+/-! ### one placement, stage by stage -/
+
+theorem fwdPlace_stage (env : Env) (σ σ' : SS) (t : Uid) (m : Time) (h : fwdPlace env σ t m = .ok σ') :
+    ∃ new σm, Stage env t new { σ with res := (resLookup σ.res (env.info t).resource).1 } σm ∧
+      σ' = markDone σm t ∧
+      GoodNew (resLookup σ.res (env.info t).resource).2 (usedBy env σ.rows (env.info t).resource t) new := by
+  unfold fwdPlace at h
+  rcases hr : resLookup σ.res (env.info t).resource with ⟨res', cal⟩
+  simp only [hr, bind, Except.bind, pure, Except.pure] at h ⊢
+  split at h
+  · cases h
+    exact ⟨[], _, Stage.setF _ _ _ _, rfl, GoodNew.nil _ _⟩
+  · split at h
+    · cases h
+    · rename_i σ1 h1
+      split at h
+      · cases h
+      · rename_i σ2 h2
+        split at h
+        · cases h
+        · rename_i σ3 h3
+          cases h
+          obtain ⟨new, hs, hg⟩ := fwdEnd_stage _ _ _ _ _ _ h3
+          exact ⟨new, σ3, (((fwdStart_stage _ _ _ _ _ _ _ h1).trans (fillEst_stage _ _ _ _ h2)).trans hs).cast (by simp),
+            rfl, hg⟩
+
+theorem bwdPlace_stage (env : Env) (σ σ' : SS) (t : Uid) (m m' : Time) (h : bwdPlace env σ t m m' = .ok σ') :
+    ∃ new σm, Stage env t new { σ with res := (resLookup σ.res (env.info t).resource).1 } σm ∧
+      σ' = markDone σm t ∧
+      GoodNew (resLookup σ.res (env.info t).resource).2 (usedBy env σ.rows (env.info t).resource t) new := by
+  unfold bwdPlace at h
+  rcases hr : resLookup σ.res (env.info t).resource with ⟨res', cal⟩
+  simp only [hr, bind, Except.bind, pure, Except.pure] at h ⊢
+  split at h
+  · cases h
+    exact ⟨[], _, Stage.setF _ _ _ _, rfl, GoodNew.nil _ _⟩
+  · split at h
+    · cases h
+    · rename_i σ1 h1
+      split at h
+      · cases h
+      · rename_i σ2 h2
+        split at h
+        · cases h
+        · rename_i σ3 h3
+          cases h
+          obtain ⟨new, hs, hg⟩ := bwdStart_stage _ _ _ _ _ _ _ h3
+          exact ⟨new, σ3, (((bwdEnd_stage _ _ _ _ _ _ _ _ h1).trans (fillEst_stage _ _ _ _ h2)).trans hs).cast (by simp),
+            rfl, hg⟩
+
+theorem place_ext_of_stage (env : Env) (σ σm : SS) (t : Uid) (new : List (Int × Rat)) (ht : t ∉ σ.done)
+    (hs : Stage env t new { σ with res := (resLookup σ.res (env.info t).resource).1 } σm) :
+    Ext σ (markDone σm t) ∧ (markDone σm t).done = σ.done ++ [t] := by
+  have hd : (markDone σm t).done = σ.done ++ [t] := by simp [markDone, hs.done]
+  obtain ⟨⟨r, hr, hrk⟩, _, _⟩ := resLookup_spec σ.res (env.info t).resource
+  refine ⟨⟨⟨[t], hd, by simpa using ht, by simp⟩, ?_, ?_, ⟨_, hs.rows, ?_⟩, ⟨r, ?_, fun p hp => (hrk p hp).2⟩, hs.reads⟩, hd⟩
+  · intro x hx
+    exact hs.f x (fun hc => ht (hc ▸ hx))
+  · intro x hx
+    rw [hd] at hx
+    exact hs.f x (fun hc => hx (by simp [hc]))
+  · intro x hx
+    obtain ⟨p, _, rfl⟩ := List.mem_map.1 hx
+    exact ⟨by rw [hd]; simp [mkRow], ht⟩
+  · show σm.res = _
+    rw [hs.res]; exact hr
 
 theorem fwdPlace_ext (env : Env) (σ σ' : SS) (t : Uid) (m : Time) (ht : t ∉ σ.done)
     (h : fwdPlace env σ t m = .ok σ') : Ext σ σ' ∧ σ'.done = σ.done ++ [t] := by
-  sorry
+  obtain ⟨new, σm, hs, rfl, _⟩ := fwdPlace_stage env σ σ' t m h
+  exact place_ext_of_stage env σ σm t new ht hs
 
 theorem bwdPlace_ext (env : Env) (σ σ' : SS) (t : Uid) (m m' : Time) (ht : t ∉ σ.done)
     (h : bwdPlace env σ t m m' = .ok σ') : Ext σ σ' ∧ σ'.done = σ.done ++ [t] := by
-  sorry
+  obtain ⟨new, σm, hs, rfl, _⟩ := bwdPlace_stage env σ σ' t m m' h
+  exact place_ext_of_stage env σ σm t new ht hs
+
+/-! ### loops over task lists -/
+
+/-- a reflexive, transitive relation established by every step holds across `passList` -/
+theorem passList_rel (R : SS → SS → Prop) (hrefl : ∀ σ, R σ σ) (htrans : ∀ a b c, R a b → R b c → R a c)
+    (step : SS → Uid → Res SS) :
+    ∀ (xs : List Uid), (∀ σ x σ', x ∈ xs → step σ x = .ok σ' → R σ σ') →
+      ∀ (σ σ' : SS), passList step σ xs = .ok σ' → R σ σ' := by
+  intro xs
+  induction xs with
+  | nil => intro _ σ σ' h; cases h; exact hrefl _
+  | cons x xs ih =>
+    intro hstep σ σ' h
+    simp only [passList, bind, Except.bind] at h
+    split at h
+    · cases h
+    · rename_i σ1 h1
+      exact htrans _ _ _ (hstep σ x σ1 List.mem_cons_self h1)
+        (ih (fun σ y σ' hy => hstep σ y σ' (List.mem_cons_of_mem _ hy)) σ1 σ' h)
 
 theorem passList_ext (step : SS → Uid → Res SS) (hstep : ∀ σ x σ', step σ x = .ok σ' → Ext σ σ') :
-    ∀ (xs : List Uid) (σ σ' : SS), passList step σ xs = .ok σ' → Ext σ σ' := by
-  sorry
+    ∀ (xs : List Uid) (σ σ' : SS), passList step σ xs = .ok σ' → Ext σ σ' := fun xs =>
+  passList_rel Ext Ext.refl (fun _ _ _ => Ext.trans) step xs (fun σ x σ' _ => hstep σ x σ')
+
+/-- an invariant kept by every step is kept by `passList` -/
+theorem passList_inv (I : SS → Prop) (step : SS → Uid → Res SS) (xs : List Uid)
+    (hstep : ∀ σ x σ', x ∈ xs → I σ → step σ x = .ok σ' → I σ') (σ σ' : SS) (hi : I σ)
+    (h : passList step σ xs = .ok σ') : I σ' :=
+  passList_rel (fun a b => I a → I b) (fun _ h => h) (fun _ _ _ h1 h2 h => h2 (h1 h)) step xs
+    (fun σ x σ' hx h hi => hstep σ x σ' hx hi h) σ σ' h hi
+
+/-- when every step extends the state and leaves its task done, all tasks of the list are done at the end -/
+theorem passList_all_done (step : SS → Uid → Res SS) :
+    ∀ (xs : List Uid), (∀ σ x σ', x ∈ xs → step σ x = .ok σ' → Ext σ σ' ∧ x ∈ σ'.done) →
+      ∀ (σ σ' : SS), passList step σ xs = .ok σ' → ∀ x ∈ xs, x ∈ σ'.done := by
+  intro xs
+  induction xs with
+  | nil => intro _ σ σ' _ x hx; cases hx
+  | cons y xs ih =>
+    intro hstep σ σ' h x hx
+    simp only [passList, bind, Except.bind] at h
+    split at h
+    · cases h
+    · rename_i σ1 h1
+      have hrest := fun σ z σ' (hz : z ∈ xs) => hstep σ z σ' (List.mem_cons_of_mem _ hz)
+      rcases List.mem_cons.1 hx with rfl | hx
+      · have he : Ext σ1 σ' := passList_rel Ext Ext.refl (fun _ _ _ => Ext.trans) step xs
+          (fun σ z σ' hz hh => (hrest σ z σ' hz hh).1) σ1 σ' h
+        exact he.done_sub (hstep σ x σ1 List.mem_cons_self h1).2
+      · exact ih hrest σ1 σ' h x hx
+
+/-! ### the common shape of the two recursive passes -/
+
+/-- `fwdPass` and `bwdPass` are instances of one memoised traversal: pass over the same-side links, aggregate a
+    date from them, pass over the children, place the task -/
+def gPass (env : Env) (links kids : Uid → List Uid) (agg : SS → List Uid → Time → Time)
+    (place : SS → Uid → Time → Time → Res SS) : Nat → List Uid → SS → Uid → Time → Res SS
+  | 0, _, _, _, _ => throw (.crash .recursion)
+  | fuel + 1, stk, σ, t, minDate =>
+    if σ.done.contains t then pure σ
+    else if stk.contains t then throw (.crash .recursion)
+    else do
+      let σ ← passList (fun σ p => if (env.info p).member == (env.info t).member
+                 then gPass env links kids agg place fuel (t :: stk) σ p minDate else pure σ) σ (links t)
+      let v := agg σ (links t) minDate
+      let σ ← passList (fun σ c => gPass env links kids agg place fuel (t :: stk) σ c v) σ (kids t)
+      place σ t minDate v
+
+theorem fwdPass_eq_gPass (env : Env) : ∀ (fuel : Nat) (stk : List Uid) (σ : SS) (t : Uid) (m : Time),
+    fwdPass env fuel stk σ t m =
+      gPass env (fun u => (env.info u).preds) (fun u => (env.info u).children) maxEnds
+        (fun σ t _ v => fwdPlace env σ t v) fuel stk σ t m := by
+  intro fuel
+  induction fuel with
+  | zero => intros; rfl
+  | succ fuel ih =>
+    intro stk σ t m
+    simp only [fwdPass, gPass, ih]
+
+theorem bwdPass_eq_gPass (env : Env) : ∀ (fuel : Nat) (stk : List Uid) (σ : SS) (t : Uid) (m : Time),
+    bwdPass env fuel stk σ t m =
+      gPass env (fun u => (env.info u).succs) (fun u => (env.info u).children.reverse) minStarts
+        (fun σ t m v => bwdPlace env σ t m v) fuel stk σ t m := by
+  intro fuel
+  induction fuel with
+  | zero => intros; rfl
+  | succ fuel ih =>
+    intro stk σ t m
+    simp only [bwdPass, gPass, ih]
+
+theorem gPass_succ_cases (env : Env) (links kids : Uid → List Uid) (agg : SS → List Uid → Time → Time)
+    (place : SS → Uid → Time → Time → Res SS) (fuel : Nat) (stk : List Uid) (σ : SS) (t : Uid) (m : Time) (σ' : SS)
+    (h : gPass env links kids agg place (fuel + 1) stk σ t m = .ok σ') :
+    (t ∈ σ.done ∧ σ' = σ) ∨
+    (t ∉ σ.done ∧ t ∉ stk ∧ ∃ σ1 σ2,
+      passList (fun σ p => if (env.info p).member == (env.info t).member
+          then gPass env links kids agg place fuel (t :: stk) σ p m else pure σ) σ (links t) = .ok σ1 ∧
+      passList (fun σ c => gPass env links kids agg place fuel (t :: stk) σ c (agg σ1 (links t) m)) σ1 (kids t)
+        = .ok σ2 ∧
+      place σ2 t m (agg σ1 (links t) m) = .ok σ') := by
+  simp only [gPass] at h
+  split at h
+  · rename_i hd
+    cases h
+    exact Or.inl ⟨List.contains_iff_mem.1 hd, rfl⟩
+  · rename_i hd
+    split at h
+    · cases h
+    · rename_i hs
+      simp only [bind, Except.bind] at h
+      split at h
+      · cases h
+      · rename_i σ1 h1
+        split at h
+        · cases h
+        · rename_i σ2 h2
+          refine Or.inr ⟨fun hc => hd (List.contains_iff_mem.2 hc), fun hc => hs (List.contains_iff_mem.2 hc),
+            σ1, σ2, h1, h2, h⟩
+
+/-- stack-aware extension: additionally, no task of the in-progress stack becomes done -/
+def ExtS (stk : List Uid) (σ σ' : SS) : Prop := Ext σ σ' ∧ ∀ x ∈ stk, x ∉ σ.done → x ∉ σ'.done
+
+theorem ExtS.refl (stk : List Uid) (σ : SS) : ExtS stk σ σ := ⟨Ext.refl σ, fun _ _ h => h⟩
+
+theorem ExtS.trans {stk : List Uid} {a b c : SS} (h1 : ExtS stk a b) (h2 : ExtS stk b c) : ExtS stk a c :=
+  ⟨h1.1.trans h2.1, fun x hx hn => h2.2 x hx (h1.2 x hx hn)⟩
+
+theorem passList_extS (stk : List Uid) (step : SS → Uid → Res SS) (xs : List Uid)
+    (hstep : ∀ σ x σ', x ∈ xs → step σ x = .ok σ' → ExtS stk σ σ') (σ σ' : SS)
+    (h : passList step σ xs = .ok σ') : ExtS stk σ σ' :=
+  passList_rel (ExtS stk) (ExtS.refl stk) (fun _ _ _ => ExtS.trans) step xs hstep σ σ' h
+
+section generic
+variable (env : Env) (links kids : Uid → List Uid) (agg : SS → List Uid → Time → Time)
+  (place : SS → Uid → Time → Time → Res SS)
+  (hplace_ext : ∀ σ σ' t m v, t ∉ σ.done → place σ t m v = .ok σ' → Ext σ σ' ∧ σ'.done = σ.done ++ [t])
+include hplace_ext
+
+/-- one pass extends the state, keeps the tasks in progress undone and leaves its task done -/
+theorem gPass_extS : ∀ (fuel : Nat) (stk : List Uid) (σ : SS) (t : Uid) (m : Time) (σ' : SS),
+    gPass env links kids agg place fuel stk σ t m = .ok σ' → ExtS stk σ σ' ∧ t ∈ σ'.done := by
+  intro fuel
+  induction fuel with
+  | zero => intro stk σ t m σ' h; cases h
+  | succ fuel ih =>
+    intro stk σ t m σ' h
+    rcases gPass_succ_cases env links kids agg place fuel stk σ t m σ' h with ⟨hd, rfl⟩ | ⟨hd, hs, σ1, σ2, h1, h2, h3⟩
+    · exact ⟨ExtS.refl _ _, hd⟩
+    · have e1 : ExtS (t :: stk) σ σ1 := passList_extS _ _ _ (fun a x b _ hh => by
+        split at hh
+        · exact (ih _ _ _ _ _ hh).1
+        · cases hh; exact ExtS.refl _ _) _ _ h1
+      have e2 : ExtS (t :: stk) σ1 σ2 := passList_extS _ _ _ (fun a x b _ hh => (ih _ _ _ _ _ hh).1) _ _ h2
+      have e12 := e1.trans e2
+      have ht2 : t ∉ σ2.done := e12.2 t List.mem_cons_self hd
+      obtain ⟨e3, hd3⟩ := hplace_ext _ _ _ _ _ ht2 h3
+      refine ⟨⟨e12.1.trans e3, ?_⟩, by rw [hd3]; simp⟩
+      intro x hx hn
+      rw [hd3]
+      have := e12.2 x (List.mem_cons_of_mem _ hx) hn
+      intro hc
+      rcases List.mem_append.1 hc with hc | hc
+      · exact this hc
+      · simp only [List.mem_singleton] at hc
+        exact hs (hc ▸ hx)
+
+/-- an invariant of the state that every placement keeps (for tasks satisfying `Q`, a property inherited by
+    children and by the same-side links the pass follows) is kept by a pass; the placement may assume that its
+    task is not done yet and that its children are -/
+theorem gPass_inv (I : SS → Prop) (Q : Uid → Prop)
+    (hplace : ∀ σ σ' t m v, Q t → I σ → t ∉ σ.done → (∀ c ∈ kids t, c ∈ σ.done) → place σ t m v = .ok σ' → I σ')
+    (hkids : ∀ t c, Q t → c ∈ kids t → Q c)
+    (hlinks : ∀ t p, Q t → p ∈ links t → (env.info p).member = (env.info t).member → Q p) :
+    ∀ (fuel : Nat) (stk : List Uid) (σ : SS) (t : Uid) (m : Time) (σ' : SS),
+      Q t → I σ → gPass env links kids agg place fuel stk σ t m = .ok σ' → I σ' := by
+  intro fuel
+  induction fuel with
+  | zero => intro stk σ t m σ' _ _ h; cases h
+  | succ fuel ih =>
+    intro stk σ t m σ' hq hi h
+    rcases gPass_succ_cases env links kids agg place fuel stk σ t m σ' h with ⟨hd, rfl⟩ | ⟨hd, hs, σ1, σ2, h1, h2, h3⟩
+    · exact hi
+    · have hx := gPass_extS env links kids agg place hplace_ext fuel (t :: stk)
+      have e1 : ExtS (t :: stk) σ σ1 := passList_extS _ _ _ (fun a x b _ hh => by
+        split at hh
+        · exact (hx _ _ _ _ hh).1
+        · cases hh; exact ExtS.refl _ _) _ _ h1
+      have e2 : ExtS (t :: stk) σ1 σ2 := passList_extS _ _ _ (fun a x b _ hh => (hx _ _ _ _ hh).1) _ _ h2
+      have ht2 : t ∉ σ2.done := (e1.trans e2).2 t List.mem_cons_self hd
+      have i1 : I σ1 := passList_inv I _ _ (fun a x b hxl ha hh => by
+        split at hh
+        · rename_i hm
+          exact ih _ _ _ _ _ (hlinks t x hq hxl (by simpa using hm)) ha hh
+        · cases hh; exact ha) _ _ hi h1
+      have i2 : I σ2 := passList_inv I _ _ (fun a x b hxl ha hh => ih _ _ _ _ _ (hkids t x hq hxl) ha hh) _ _ i1 h2
+      have hk : ∀ c ∈ kids t, c ∈ σ2.done := passList_all_done _ _ (fun a x b _ hh =>
+        ⟨(hx _ _ _ _ hh).1.1, (hx _ _ _ _ hh).2⟩) _ _ h2
+      exact hplace _ _ _ _ _ hq i2 ht2 hk h3
+
+end generic
+
+theorem fwdPlace_ext' (env : Env) : ∀ (σ σ' : SS) (t : Uid) (m v : Time), t ∉ σ.done →
+    (fun σ t (_ : Time) v => fwdPlace env σ t v) σ t m v = .ok σ' → Ext σ σ' ∧ σ'.done = σ.done ++ [t] :=
+  fun σ σ' t _ v ht h => fwdPlace_ext env σ σ' t v ht h
+
+theorem bwdPlace_ext' (env : Env) : ∀ (σ σ' : SS) (t : Uid) (m v : Time), t ∉ σ.done →
+    (fun σ t m v => bwdPlace env σ t m v) σ t m v = .ok σ' → Ext σ σ' ∧ σ'.done = σ.done ++ [t] :=
+  fun σ σ' t m v ht h => bwdPlace_ext env σ σ' t m v ht h
+
+/-- stack-aware form of `fwdPass_ext` -/
+theorem fwdPass_extS (env : Env) (fuel : Nat) (stk : List Uid) (σ : SS) (t : Uid) (m : Time) (σ' : SS)
+    (h : fwdPass env fuel stk σ t m = .ok σ') : ExtS stk σ σ' ∧ t ∈ σ'.done := by
+  rw [fwdPass_eq_gPass] at h
+  exact gPass_extS env _ _ _ _ (fwdPlace_ext' env) fuel stk σ t m σ' h
+
+theorem bwdPass_extS (env : Env) (fuel : Nat) (stk : List Uid) (σ : SS) (t : Uid) (m : Time) (σ' : SS)
+    (h : bwdPass env fuel stk σ t m = .ok σ') : ExtS stk σ σ' ∧ t ∈ σ'.done := by
+  rw [bwdPass_eq_gPass] at h
+  exact gPass_extS env _ _ _ _ (bwdPlace_ext' env) fuel stk σ t m σ' h
 
 /-- one forward pass extends the state and leaves its task done -/
 theorem fwdPass_ext (env : Env) : ∀ (fuel : Nat) (stk : List Uid) (σ : SS) (t : Uid) (m : Time) (σ' : SS),
     fwdPass env fuel stk σ t m = .ok σ' → Ext σ σ' ∧ t ∈ σ'.done := by
-  sorry
+  intro fuel stk σ t m σ' h
+  have := fwdPass_extS env fuel stk σ t m σ' h
+  exact ⟨this.1.1, this.2⟩
 
 theorem bwdPass_ext (env : Env) : ∀ (fuel : Nat) (stk : List Uid) (σ : SS) (t : Uid) (m : Time) (σ' : SS),
     bwdPass env fuel stk σ t m = .ok σ' → Ext σ σ' ∧ t ∈ σ'.done := by
-  sorry
+  intro fuel stk σ t m σ' h
+  have := bwdPass_extS env fuel stk σ t m σ' h
+  exact ⟨this.1.1, this.2⟩
 
-/-- after a successful pass over a task, its whole subtree (along `children`) is done -/
+/-- a pass keeps an invariant that every placement keeps (see `gPass_inv`) -/
+theorem fwdPass_inv (env : Env) (I : SS → Prop) (Q : Uid → Prop)
+    (hplace : ∀ σ σ' t v, Q t → I σ → t ∉ σ.done → (∀ c ∈ (env.info t).children, c ∈ σ.done) →
+      fwdPlace env σ t v = .ok σ' → I σ')
+    (hkids : ∀ t c, Q t → c ∈ (env.info t).children → Q c)
+    (hlinks : ∀ t p, Q t → p ∈ (env.info t).preds → (env.info p).member = (env.info t).member → Q p)
+    (fuel : Nat) (stk : List Uid) (σ : SS) (t : Uid) (m : Time) (σ' : SS) (hq : Q t) (hi : I σ)
+    (h : fwdPass env fuel stk σ t m = .ok σ') : I σ' := by
+  rw [fwdPass_eq_gPass] at h
+  exact gPass_inv env _ _ _ _ (fwdPlace_ext' env) I Q (fun σ σ' t _ v => hplace σ σ' t v) hkids hlinks
+    fuel stk σ t m σ' hq hi h
+
+theorem bwdPass_inv (env : Env) (I : SS → Prop) (Q : Uid → Prop)
+    (hplace : ∀ σ σ' t m v, Q t → I σ → t ∉ σ.done → (∀ c ∈ (env.info t).children, c ∈ σ.done) →
+      bwdPlace env σ t m v = .ok σ' → I σ')
+    (hkids : ∀ t c, Q t → c ∈ (env.info t).children → Q c)
+    (hlinks : ∀ t p, Q t → p ∈ (env.info t).succs → (env.info p).member = (env.info t).member → Q p)
+    (fuel : Nat) (stk : List Uid) (σ : SS) (t : Uid) (m : Time) (σ' : SS) (hq : Q t) (hi : I σ)
+    (h : bwdPass env fuel stk σ t m = .ok σ') : I σ' := by
+  rw [bwdPass_eq_gPass] at h
+  exact gPass_inv env _ _ _ _ (bwdPlace_ext' env) I Q
+    (fun σ σ' t m v hq hi ht hk => hplace σ σ' t m v hq hi ht (fun c hc => hk c (List.mem_reverse.2 hc)))
+    (fun t c hq hc => hkids t c hq (List.mem_reverse.1 hc)) hlinks
+    fuel stk σ t m σ' hq hi h
+
+/-! ### the whole subtree is done -/
+
+/-- `done` is closed under `children` (holds of the empty list, kept by every pass) -/
+def DoneClosed (env : Env) (σ : SS) : Prop := ∀ x ∈ σ.done, ∀ c ∈ (env.info x).children, c ∈ σ.done
+
+theorem DoneClosed.desc {env : Env} {σ : SS} (hcl : DoneClosed env σ) {t x : Uid} (ht : t ∈ σ.done)
+    (h : TC (fun a b => b ∈ (env.info a).children) t x) : x ∈ σ.done := by
+  induction h with
+  | single h => exact hcl _ ht _ h
+  | tail _ h ih => exact hcl _ ih _ h
+
+theorem DoneClosed.subtree {env : Env} {σ : SS} (hcl : DoneClosed env σ) {t : Uid} (ht : t ∈ σ.done)
+    (f : Nat) (l : List Uid) (hl : subtreeF (fun u => (env.info u).children) f t = some l) :
+    ∀ x ∈ l, x ∈ σ.done := by
+  intro x hx
+  simp only [subtreeF, Option.map_eq_some_iff] at hl
+  obtain ⟨r, hr, rfl⟩ := hl
+  rcases List.mem_cons.1 hx with rfl | hx
+  · exact ht
+  · exact hcl.desc ht (descF_sound _ _ _ _ hr x hx)
+
+theorem place_doneClosed (env : Env) (σ σ' : SS) (t : Uid) (hi : DoneClosed env σ)
+    (hk : ∀ c ∈ (env.info t).children, c ∈ σ.done) (hd : σ'.done = σ.done ++ [t]) : DoneClosed env σ' := by
+  intro x hx c hc
+  rw [hd] at hx ⊢
+  rcases List.mem_append.1 hx with hx | hx
+  · exact List.mem_append_left _ (hi x hx c hc)
+  · simp only [List.mem_singleton] at hx
+    subst hx
+    exact List.mem_append_left _ (hk c hc)
+
+/-- a pass keeps `done` closed under `children` -/
+theorem fwdPass_doneClosed (env : Env) (fuel : Nat) (stk : List Uid) (σ : SS) (t : Uid) (m : Time) (σ' : SS)
+    (hcl : DoneClosed env σ) (h : fwdPass env fuel stk σ t m = .ok σ') : DoneClosed env σ' :=
+  fwdPass_inv env (DoneClosed env) (fun _ => True)
+    (fun σ σ' t v _ hi ht hk h => place_doneClosed env σ σ' t hi hk (fwdPlace_ext env σ σ' t v ht h).2)
+    (fun _ _ _ _ => trivial) (fun _ _ _ _ _ => trivial) fuel stk σ t m σ' trivial hcl h
+
+theorem bwdPass_doneClosed (env : Env) (fuel : Nat) (stk : List Uid) (σ : SS) (t : Uid) (m : Time) (σ' : SS)
+    (hcl : DoneClosed env σ) (h : bwdPass env fuel stk σ t m = .ok σ') : DoneClosed env σ' :=
+  bwdPass_inv env (DoneClosed env) (fun _ => True)
+    (fun σ σ' t m v _ hi ht hk h => place_doneClosed env σ σ' t hi hk (bwdPlace_ext env σ σ' t m v ht h).2)
+    (fun _ _ _ _ => trivial) (fun _ _ _ _ _ => trivial) fuel stk σ t m σ' trivial hcl h
+
+/-- after a successful pass over a task, its whole subtree (along `children`) is done — provided `done` was
+    closed under `children` before (otherwise a task that is already done returns at once although its children
+    need not be done); see `fwdPass_doneClosed` for the preservation of that hypothesis -/
 theorem fwdPass_subtree_done (env : Env) : ∀ (fuel : Nat) (stk : List Uid) (σ : SS) (t : Uid) (m : Time) (σ' : SS),
+    DoneClosed env σ →
     fwdPass env fuel stk σ t m = .ok σ' →
     ∀ x l, subtreeF (fun u => (env.info u).children) (env.n + 1) t = some l → x ∈ l → x ∈ σ'.done := by
-  sorry
+  intro fuel stk σ t m σ' hcl h x l hl hx
+  exact (fwdPass_doneClosed env fuel stk σ t m σ' hcl h).subtree (fwdPass_ext env fuel stk σ t m σ' h).2 _ l hl x hx
+
+/-- the closure hypothesis of `fwdPass_subtree_done` cannot be dropped: a task that is already done returns at
+    once, whatever the state of its children -/
+example : ∃ (env : Env) (σ : SS), fwdPass env 1 [] σ 0 0 = .ok σ ∧
+    subtreeF (fun u => (env.info u).children) (env.n + 1) 0 = some [0, 1] ∧ 1 ∉ σ.done := by
+  refine ⟨{ n := 1, info := fun u => { (default : TaskInfo) with children := if u = 0 then [1] else [] }, roots := [0],
+            balance := false, defaultEst := 1, clock := fun _ => 0, bound := 0 },
+          { f := fun _ => default, rows := [], done := [0], res := [], reads := 0 }, ?_, ?_, ?_⟩
+  · simp [fwdPass]; rfl
+  · simp [subtreeF, descF]
+  · simp
 
 theorem bwdPass_subtree_done (env : Env) : ∀ (fuel : Nat) (stk : List Uid) (σ : SS) (t : Uid) (m : Time) (σ' : SS),
+    DoneClosed env σ →
     bwdPass env fuel stk σ t m = .ok σ' →
     ∀ x l, subtreeF (fun u => (env.info u).children) (env.n + 1) t = some l → x ∈ l → x ∈ σ'.done := by
-  sorry
+  intro fuel stk σ t m σ' hcl h x l hl hx
+  exact (bwdPass_doneClosed env fuel stk σ t m σ' hcl h).subtree (bwdPass_ext env fuel stk σ t m σ' h).2 _ l hl x hx
+
+/-! ### the ledger -/
 
 /-- the ledger invariant: what C03 says about the rows, relative to the resource table of the state -/
 structure LedgerOK (env : Env) (σ : SS) : Prop where
@@ -63,20 +684,436 @@ structure LedgerOK (env : Env) (σ : SS) : Prop where
   capDay : ∀ r ∈ σ.rows, 0 < capMid σ.res r.res r.day
   noOver : ∀ r ∈ σ.rows, reserved σ.rows r.res r.day (if env.balance then none else some r.task) ≤ capMid σ.res r.res r.day
 
+theorem sum_nonneg_rat : ∀ (l : List Rat), (∀ x ∈ l, 0 ≤ x) → 0 ≤ l.sum
+  | [], _ => by simp
+  | x :: l, h => by
+    have h1 := h x (by simp)
+    have h2 := sum_nonneg_rat l (fun y hy => h y (List.mem_cons_of_mem _ hy))
+    simp only [List.sum_cons]
+    grind
+
+theorem reserved_append (a b : List Row) (r : Option Nat) (d : Int) (tf : Option Uid) :
+    reserved (a ++ b) r d tf = reserved a r d tf + reserved b r d tf := by
+  simp [reserved, List.filter_append, List.sum_append]
+
+theorem reserved_nonneg (rows : List Row) (hpos : ∀ r ∈ rows, 0 < r.units) (r : Option Nat) (d : Int)
+    (tf : Option Uid) : 0 ≤ reserved rows r d tf := by
+  unfold reserved
+  apply sum_nonneg_rat
+  intro x hx
+  obtain ⟨y, hy, rfl⟩ := List.mem_map.1 hx
+  exact Rat.le_of_lt (hpos y (List.mem_filter.1 hy).1)
+
+/-- units a list of `(day, units)` pairs puts on one day -/
+def daySum (new : List (Int × Rat)) (d : Int) : Rat := ((new.filter (fun p => p.1 == d)).map (·.2)).sum
+
+theorem reserved_mk (key : Option Nat) (t : Uid) (new : List (Int × Rat)) (k : Option Nat) (d : Int)
+    (tf : Option Uid) :
+    reserved (new.map (mkRow key t)) k d tf =
+      if key = k ∧ (∀ t', tf = some t' → t = t') then daySum new d else 0 := by
+  unfold reserved daySum
+  rw [List.filter_map, List.map_map]
+  by_cases hk : key = k
+  · cases tf with
+    | none => simp [mkRow, hk, Function.comp_def]
+    | some t' =>
+      by_cases ht : t = t'
+      · simp [mkRow, hk, ht, Function.comp_def]
+      · have hb : (t == t') = false := by simpa using ht
+        simp [mkRow, hk, ht, hb, Function.comp_def]
+        rw [List.filter_eq_nil_iff.2 (by simp)]; rfl
+  · have hb : (key == k) = false := by simpa using hk
+    simp [mkRow, hk, hb, Function.comp_def]
+    rw [List.filter_eq_nil_iff.2 (by simp)]; rfl
+
+theorem daySum_not_mem (new : List (Int × Rat)) (d : Int) (h : ∀ p ∈ new, p.1 ≠ d) : daySum new d = 0 := by
+  unfold daySum
+  rw [List.filter_eq_nil_iff.2 (fun p hp => by simpa using h p hp)]
+  simp
+
+theorem daySum_mem : ∀ (new : List (Int × Rat)) (d : Int) (u : Rat),
+    (new.map (·.1)).Pairwise (· ≠ ·) → (d, u) ∈ new → daySum new d = u
+  | [], _, _, _, h => by cases h
+  | p :: l, d, u, hp, h => by
+    simp only [List.map_cons, List.pairwise_cons] at hp
+    rcases List.mem_cons.1 h with rfl | h
+    · have : daySum l d = 0 := daySum_not_mem l d (fun q hq hc =>
+        hp.1 q.1 (List.mem_map_of_mem hq) hc.symm)
+      unfold daySum at this ⊢
+      simp only [List.filter_cons, beq_self_eq_true, if_true, List.map_cons, List.sum_cons, this]
+      grind
+    · have hne : p.1 ≠ d := hp.1 d (by simpa using List.mem_map_of_mem (f := (·.1)) h)
+      have ih := daySum_mem l d u hp.2 h
+      unfold daySum at ih ⊢
+      rw [List.filter_cons_of_neg (by simpa using hne)]
+      exact ih
+
+
+theorem LedgerOK.markDone {env : Env} {σ : SS} (h : LedgerOK env σ) (t : Uid) : LedgerOK env (markDone σ t) :=
+  ⟨h.pos, h.own, h.present, h.capDay, h.noOver⟩
+
+/-- the ledger invariant survives one placement: the new rows fit into what the days still offered -/
+theorem place_ledger_of_stage (env : Env) (σ σm : SS) (t : Uid) (new : List (Int × Rat)) (hl : LedgerOK env σ)
+    (hs : Stage env t new { σ with res := (resLookup σ.res (env.info t).resource).1 } σm)
+    (hg : GoodNew (resLookup σ.res (env.info t).resource).2 (usedBy env σ.rows (env.info t).resource t) new) :
+    LedgerOK env (Pj.markDone σm t) := by
+  apply LedgerOK.markDone
+  obtain ⟨⟨r, hr, _⟩, hcal, hcont⟩ := resLookup_spec σ.res (env.info t).resource
+  have hu : ∀ d, 0 ≤ usedBy env σ.rows (env.info t).resource t d := fun d => reserved_nonneg _ hl.pos _ _ _
+  obtain ⟨hfit, hpw⟩ := hg hu
+  have hres : σm.res = σ.res ++ r := hs.res.trans hr
+  have hrows := hs.rows
+  have hcap : ∀ p ∈ new, 0 < p.2 ∧
+      usedBy env σ.rows (env.info t).resource t p.1 + p.2 ≤ capMid σm.res (env.info t).resource p.1 := by
+    intro p hp
+    obtain ⟨c, hc, h0, h1⟩ := hfit p hp
+    have : capMid σm.res (env.info t).resource p.1 = c := by
+      unfold capMid
+      rw [hs.res]
+      show (match capR (calOf (resLookup σ.res (env.info t).resource).1 (env.info t).resource) _ with
+        | .ok v => v | .error _ => 0) = c
+      rw [hcal, hc]
+    rw [this]; exact ⟨h0, by grind⟩
+  have hold : ∀ x ∈ σ.rows, capMid σm.res x.res x.day = capMid σ.res x.res x.day := fun x hx => by
+    rw [hres]; exact capMid_append _ _ _ _ (hl.present x hx)
+  have hkeyin : (σm.res.map (·.1)).contains (env.info t).resource = true := by
+    rw [hs.res]; exact hcont
+  refine ⟨?_, ?_, ?_, ?_, ?_⟩
+  · intro x hx
+    rw [hrows] at hx
+    rcases List.mem_append.1 hx with hx | hx
+    · exact hl.pos x hx
+    · obtain ⟨p, hp, rfl⟩ := List.mem_map.1 hx
+      exact (hcap p hp).1
+  · intro x hx
+    rw [hrows] at hx
+    rcases List.mem_append.1 hx with hx | hx
+    · exact hl.own x hx
+    · obtain ⟨p, hp, rfl⟩ := List.mem_map.1 hx
+      rfl
+  · intro x hx
+    rw [hrows] at hx
+    rcases List.mem_append.1 hx with hx | hx
+    · rw [hres]; exact contains_append_left _ _ _ (hl.present x hx)
+    · obtain ⟨p, hp, rfl⟩ := List.mem_map.1 hx
+      exact hkeyin
+  · intro x hx
+    rw [hrows] at hx
+    rcases List.mem_append.1 hx with hx | hx
+    · rw [hold x hx]; exact hl.capDay x hx
+    · obtain ⟨p, hp, rfl⟩ := List.mem_map.1 hx
+      have := hcap p hp
+      have := hu p.1
+      show 0 < capMid σm.res (env.info t).resource p.1
+      grind
+  · intro x hx
+    rw [hrows, reserved_append, reserved_mk]
+    rw [hrows] at hx
+    by_cases hc : (env.info t).resource = x.res ∧
+        ∀ t', (if env.balance then none else some x.task) = some t' → t = t'
+    · rw [if_pos hc]
+      obtain ⟨hk, htf⟩ := hc
+      have huse : reserved σ.rows x.res x.day (if env.balance then none else some x.task) =
+          usedBy env σ.rows (env.info t).resource t x.day := by
+        unfold usedBy
+        rw [← hk]
+        by_cases hb : env.balance = true
+        · simp [hb]
+        · simp only [hb] at htf ⊢
+          rw [htf x.task rfl]
+      by_cases hday : ∃ p ∈ new, p.1 = x.day
+      · obtain ⟨p, hp, hpd⟩ := hday
+        rw [huse, ← hk, ← hpd, daySum_mem new p.1 p.2 hpw hp]
+        exact (hcap p hp).2
+      · have hz : daySum new x.day = 0 := daySum_not_mem new x.day (fun p hp hc => hday ⟨p, hp, hc⟩)
+        rcases List.mem_append.1 hx with hx | hx
+        · rw [hz, hold x hx]
+          have := hl.noOver x hx
+          grind
+        · obtain ⟨p, hp, rfl⟩ := List.mem_map.1 hx
+          exact absurd ⟨p, hp, rfl⟩ hday
+    · rw [if_neg hc]
+      rcases List.mem_append.1 hx with hx | hx
+      · rw [hold x hx]
+        have := hl.noOver x hx
+        grind
+      · obtain ⟨p, hp, rfl⟩ := List.mem_map.1 hx
+        exfalso
+        apply hc
+        refine ⟨rfl, ?_⟩
+        intro t' ht'
+        by_cases hb : env.balance = true
+        · simp [hb] at ht'
+        · simpa [hb, mkRow] using ht'
+
 theorem fwdPlace_ledger (env : Env) (σ σ' : SS) (t : Uid) (m : Time) (hl : LedgerOK env σ)
     (h : fwdPlace env σ t m = .ok σ') : LedgerOK env σ' := by
-  sorry
+  obtain ⟨new, σm, hs, rfl, hg⟩ := fwdPlace_stage env σ σ' t m h
+  exact place_ledger_of_stage env σ σm t new hl hs hg
 
 theorem bwdPlace_ledger (env : Env) (σ σ' : SS) (t : Uid) (m m' : Time) (hl : LedgerOK env σ)
     (h : bwdPlace env σ t m m' = .ok σ') : LedgerOK env σ' := by
-  sorry
+  obtain ⟨new, σm, hs, rfl, hg⟩ := bwdPlace_stage env σ σ' t m m' h
+  exact place_ledger_of_stage env σ σm t new hl hs hg
 
 theorem fwdPass_ledger (env : Env) : ∀ (fuel : Nat) (stk : List Uid) (σ : SS) (t : Uid) (m : Time) (σ' : SS),
     LedgerOK env σ → fwdPass env fuel stk σ t m = .ok σ' → LedgerOK env σ' := by
-  sorry
+  intro fuel stk σ t m σ' hl h
+  exact fwdPass_inv env (LedgerOK env) (fun _ => True)
+    (fun σ σ' t v _ hi _ _ h => fwdPlace_ledger env σ σ' t v hi h)
+    (fun _ _ _ _ => trivial) (fun _ _ _ _ _ => trivial) fuel stk σ t m σ' trivial hl h
 
 theorem bwdPass_ledger (env : Env) : ∀ (fuel : Nat) (stk : List Uid) (σ : SS) (t : Uid) (m : Time) (σ' : SS),
     LedgerOK env σ → bwdPass env fuel stk σ t m = .ok σ' → LedgerOK env σ' := by
-  sorry
+  intro fuel stk σ t m σ' hl h
+  exact bwdPass_inv env (LedgerOK env) (fun _ => True)
+    (fun σ σ' t m v _ hi _ _ h => bwdPlace_ledger env σ σ' t m v hi h)
+    (fun _ _ _ _ => trivial) (fun _ _ _ _ _ => trivial) fuel stk σ t m σ' trivial hl h
+
+
+/-! ### from the final pass state to the C03 predicates -/
+
+theorem fwdRun_ok (env : Env) (f0 : Uid → Fields) (res0 : List (Option Nat × Cal)) (o : Output)
+    (h : fwdRun env f0 res0 = .ok o) :
+    ∃ mem σ, members env = some mem ∧
+      passList (fun σ r => fwdPass env (env.n + 1) [] σ r env.bound)
+        { f := prepare env f0 mem, rows := [], done := [], res := res0, reads := 1 } env.roots = .ok σ ∧
+      o = { f := σ.f, rows := σ.rows, res := σ.res } := by
+  unfold fwdRun at h
+  cases hm : members env with
+  | none => simp [hm, bind, Except.bind, throw, throwThe, MonadExceptOf.throw] at h
+  | some mem =>
+    simp only [hm, bind, Except.bind, pure, Except.pure] at h
+    split at h
+    · cases h
+    · rename_i σ hσ
+      cases h
+      exact ⟨mem, σ, rfl, hσ, rfl⟩
+
+theorem bwdRun_ok (env : Env) (f0 : Uid → Fields) (res0 : List (Option Nat × Cal)) (o : Output)
+    (h : bwdRun env f0 res0 = .ok o) :
+    ∃ mem σ, members env = some mem ∧
+      passList (fun σ r => bwdPass env (env.n + 1) [] σ r env.bound)
+        { f := prepare env f0 mem, rows := [], done := [], res := res0, reads := 0 } env.roots.reverse = .ok σ ∧
+      o = { f := σ.f, rows := σ.rows, res := σ.res } := by
+  unfold bwdRun at h
+  cases hm : members env with
+  | none => simp [hm, bind, Except.bind, throw, throwThe, MonadExceptOf.throw] at h
+  | some mem =>
+    simp only [hm, bind, Except.bind, pure, Except.pure] at h
+    split at h
+    · cases h
+    · rename_i σ hσ
+      cases h
+      exact ⟨mem, σ, rfl, hσ, rfl⟩
+
+theorem forwardCalc_run (env : Env) (f0 : Uid → Fields) (res0 : List (Option Nat × Cal)) (o : Output)
+    (h : forwardCalc env f0 res0 = .ok o) : fwdRun env f0 res0 = .ok o := by
+  unfold forwardCalc at h
+  simp only [bind, Except.bind] at h
+  split at h
+  · cases h
+  · exact h
+
+theorem backwardCalc_run (env : Env) (f0 : Uid → Fields) (res0 : List (Option Nat × Cal)) (o : Output)
+    (h : backwardCalc env f0 res0 = .ok o) : bwdRun env f0 res0 = .ok o := by
+  unfold backwardCalc at h
+  simp only [bind, Except.bind] at h
+  split at h
+  · cases h
+  · exact h
+
+theorem LedgerOK.init (env : Env) (σ : SS) (h : σ.rows = []) : LedgerOK env σ := by
+  refine ⟨?_, ?_, ?_, ?_, ?_⟩ <;> (intro r hr; rw [h] at hr; cases hr)
+
+/-- the ledger invariant of the final state is what the four executable C03 predicates check -/
+theorem c03_of_ledger (env : Env) (σ : SS) (hl : LedgerOK env σ) (o : Output)
+    (ho : o = { f := σ.f, rows := σ.rows, res := σ.res }) :
+    c03Positive o = true ∧ c03OwnResource env o = true ∧ c03CapacityDay o = true ∧ c03NoOverAlloc env o = true := by
+  subst ho
+  refine ⟨?_, ?_, ?_, ?_⟩
+  · simp only [c03Positive, List.all_eq_true, decide_eq_true_eq]
+    exact hl.pos
+  · simp only [c03OwnResource, List.all_eq_true, beq_iff_eq]
+    exact hl.own
+  · simp only [c03CapacityDay, List.all_eq_true, decide_eq_true_eq]
+    exact hl.capDay
+  · simp only [c03NoOverAlloc, List.all_eq_true, decide_eq_true_eq]
+    intro r hr
+    have h := hl.noOver r hr
+    have he : sumUnits (σ.rows.filter (fun x => x.res == r.res && x.day == r.day && (env.balance || x.task == r.task)))
+        = reserved σ.rows r.res r.day (if env.balance then none else some r.task) := by
+      unfold sumUnits reserved
+      by_cases hb : env.balance = true
+      · simp [hb]
+      · simp [hb]
+    rw [he]; exact h
+
+theorem forwardCalc_c03 (env : Env) (f0 : Uid → Fields) (res0 : List (Option Nat × Cal)) (o : Output)
+    (h : forwardCalc env f0 res0 = .ok o) :
+    c03Positive o = true ∧ c03OwnResource env o = true ∧ c03CapacityDay o = true ∧ c03NoOverAlloc env o = true := by
+  obtain ⟨mem, σ, _, hp, ho⟩ := fwdRun_ok env f0 res0 o (forwardCalc_run env f0 res0 o h)
+  refine c03_of_ledger env σ ?_ o ho
+  exact passList_inv (LedgerOK env) _ _ (fun a x b _ ha hh => fwdPass_ledger env _ _ _ _ _ _ ha hh) _ _
+    (LedgerOK.init env _ rfl) hp
+
+theorem backwardCalc_c03 (env : Env) (f0 : Uid → Fields) (res0 : List (Option Nat × Cal)) (o : Output)
+    (h : backwardCalc env f0 res0 = .ok o) :
+    c03Positive o = true ∧ c03OwnResource env o = true ∧ c03CapacityDay o = true ∧ c03NoOverAlloc env o = true := by
+  obtain ⟨mem, σ, _, hp, ho⟩ := bwdRun_ok env f0 res0 o (backwardCalc_run env f0 res0 o h)
+  refine c03_of_ledger env σ ?_ o ho
+  exact passList_inv (LedgerOK env) _ _ (fun a x b _ ha hh => bwdPass_ledger env _ _ _ _ _ _ ha hh) _ _
+    (LedgerOK.init env _ rfl) hp
+
+
+/-! ### the resource table at the end (C03, resources clause) -/
+
+/-- the table is the supplied one followed by entries for resources of member tasks, and every done task's
+    resource is in it -/
+structure ResOK (env : Env) (res0 : List (Option Nat × Cal)) (σ : SS) : Prop where
+  ext : ∃ r, σ.res = res0 ++ r ∧ ∀ p ∈ r, ∃ t, (env.info t).member = true ∧ (env.info t).resource = p.1
+  have_ : ∀ x ∈ σ.done, (σ.res.map (·.1)).contains (env.info x).resource = true
+
+theorem place_resOK_of_stage (env : Env) (res0 : List (Option Nat × Cal)) (σ σm : SS) (t : Uid)
+    (new : List (Int × Rat)) (hm : (env.info t).member = true) (hi : ResOK env res0 σ)
+    (hs : Stage env t new { σ with res := (resLookup σ.res (env.info t).resource).1 } σm) :
+    ResOK env res0 (markDone σm t) := by
+  obtain ⟨⟨r, hr, hrk⟩, _, hcont⟩ := resLookup_spec σ.res (env.info t).resource
+  obtain ⟨r0, hr0, hk0⟩ := hi.ext
+  have hres : σm.res = σ.res ++ r := hs.res.trans hr
+  have hd : (markDone σm t).done = σ.done ++ [t] := by simp [markDone, hs.done]
+  refine ⟨⟨r0 ++ r, ?_, ?_⟩, ?_⟩
+  · show σm.res = _
+    rw [hres, hr0, List.append_assoc]
+  · intro p hp
+    rcases List.mem_append.1 hp with hp | hp
+    · exact hk0 p hp
+    · exact ⟨t, hm, (hrk p hp).1.symm⟩
+  · intro x hx
+    rw [hd] at hx
+    show (σm.res.map (·.1)).contains _ = true
+    rcases List.mem_append.1 hx with hx | hx
+    · rw [hres]; exact contains_append_left _ _ _ (hi.have_ x hx)
+    · simp only [List.mem_singleton] at hx
+      subst hx
+      rw [hs.res]; exact hcont
+
+theorem fwdPlace_resOK (env : Env) (res0 : List (Option Nat × Cal)) (σ σ' : SS) (t : Uid) (m : Time)
+    (hm : (env.info t).member = true) (hi : ResOK env res0 σ) (h : fwdPlace env σ t m = .ok σ') :
+    ResOK env res0 σ' := by
+  obtain ⟨new, σm, hs, rfl, _⟩ := fwdPlace_stage env σ σ' t m h
+  exact place_resOK_of_stage env res0 σ σm t new hm hi hs
+
+theorem bwdPlace_resOK (env : Env) (res0 : List (Option Nat × Cal)) (σ σ' : SS) (t : Uid) (m m' : Time)
+    (hm : (env.info t).member = true) (hi : ResOK env res0 σ) (h : bwdPlace env σ t m m' = .ok σ') :
+    ResOK env res0 σ' := by
+  obtain ⟨new, σm, hs, rfl, _⟩ := bwdPlace_stage env σ σ' t m m' h
+  exact place_resOK_of_stage env res0 σ σm t new hm hi hs
+
+/-- what `members env = some mem` says: the roots' subtrees, flattened -/
+theorem members_spec (env : Env) (mem : List Uid) (hm : members env = some mem) :
+    (∀ r ∈ env.roots, ∃ l, subtreeF (fun u => (env.info u).children) (env.n + 1) r = some l ∧ ∀ x ∈ l, x ∈ mem) ∧
+    (∀ x ∈ mem, ∃ r ∈ env.roots, ∃ l, subtreeF (fun u => (env.info u).children) (env.n + 1) r = some l ∧ x ∈ l) := by
+  unfold members at hm
+  simp only [Option.map_eq_some_iff] at hm
+  obtain ⟨ll, hll, rfl⟩ := hm
+  constructor
+  · intro r hr
+    obtain ⟨l, hl, hs⟩ := mapM_some_mem _ _ _ hll r hr
+    exact ⟨l, hs, fun x hx => List.mem_flatten.2 ⟨l, hl, hx⟩⟩
+  · intro x hx
+    obtain ⟨l, hl, hxl⟩ := List.mem_flatten.1 hx
+    obtain ⟨r, hr, hs⟩ := mapM_some_mem_inv _ _ _ hll l hl
+    exact ⟨r, hr, l, hs, hxl⟩
+
+theorem memberList_eq (env : Env) (mem : List Uid) (hm : members env = some mem) : memberList env = mem := by
+  unfold memberList; rw [hm]; rfl
+
+theorem members_root (env : Env) (mem : List Uid) (hm : members env = some mem) : ∀ r ∈ env.roots, r ∈ mem := by
+  intro r hr
+  obtain ⟨l, hl, hsub⟩ := (members_spec env mem hm).1 r hr
+  simp only [subtreeF, Option.map_eq_some_iff] at hl
+  obtain ⟨d, _, rfl⟩ := hl
+  exact hsub r List.mem_cons_self
+
+/-- the member list is closed under `children` -/
+theorem members_children (env : Env) (mem : List Uid) (hm : members env = some mem) :
+    ∀ x ∈ mem, ∀ c ∈ (env.info x).children, c ∈ mem := by
+  intro x hx c hc
+  obtain ⟨r, hr, l, hl, hxl⟩ := (members_spec env mem hm).2 x hx
+  obtain ⟨l', hl', hsub⟩ := (members_spec env mem hm).1 r hr
+  rw [hl] at hl'
+  cases hl'
+  apply hsub
+  simp only [subtreeF, Option.map_eq_some_iff] at hl
+  obtain ⟨d, hd, rfl⟩ := hl
+  have hrc : TC (fun a b => b ∈ (env.info a).children) r c := by
+    rcases List.mem_cons.1 hxl with rfl | hxd
+    · exact TC.single hc
+    · exact TC.tail (descF_sound _ _ _ _ hd x hxd) hc
+  exact List.mem_cons_of_mem _ (descF_complete _ _ _ _ hd c hrc)
+
+/-- the resources clause of C03, from what the passes guarantee about the final state -/
+theorem c03Resources_of (env : Env) (res0 : List (Option Nat × Cal)) (σ : SS) (hf : env.flagsOK)
+    (mem : List Uid) (hm : members env = some mem) (hcl : DoneClosed env σ)
+    (hroots : ∀ r ∈ env.roots, r ∈ σ.done) (hres : ResOK env res0 σ) (o : Output)
+    (ho : o = { f := σ.f, rows := σ.rows, res := σ.res }) : c03Resources env res0 o = true := by
+  subst ho
+  obtain ⟨r, hr, hk⟩ := hres.ext
+  unfold c03Resources
+  simp only [Bool.and_eq_true, List.all_eq_true, memberList_eq env mem hm]
+  refine ⟨⟨?_, ?_⟩, ?_⟩
+  · intro t ht
+    obtain ⟨rt, hrt, l, hl, htl⟩ := (members_spec env mem hm).2 t ht
+    exact hres.have_ t (hcl.subtree (hroots rt hrt) _ l hl t htl)
+  · show ((σ.res.map (·.1)).take res0.length == res0.map (·.1)) = true
+    rw [hr, List.map_append, List.take_left' (by simp)]
+    simp
+  · intro p hp
+    have hp' : p ∈ r := by
+      have : (σ.res.drop res0.length) = r := by rw [hr, List.drop_left' rfl]
+      exact this ▸ hp
+    obtain ⟨t, htm, htr⟩ := hk p hp'
+    rw [List.any_eq_true]
+    exact ⟨t, by rw [← memberList_eq env mem hm]; exact (hf t).1 htm, by simp [htr]⟩
+
+theorem forwardCalc_c03Resources (env : Env) (f0 : Uid → Fields) (res0 : List (Option Nat × Cal)) (o : Output)
+    (hf : env.flagsOK) (h : forwardCalc env f0 res0 = .ok o) : c03Resources env res0 o = true := by
+  obtain ⟨mem, σ, hm, hp, ho⟩ := fwdRun_ok env f0 res0 o (forwardCalc_run env f0 res0 o h)
+  have hmemb : ∀ t, (env.info t).member = true ↔ t ∈ mem := fun t => by rw [← memberList_eq env mem hm]; exact hf t
+  have hI : DoneClosed env σ ∧ ResOK env res0 σ := by
+    refine passList_inv (fun s => DoneClosed env s ∧ ResOK env res0 s) _ _ ?_ _ _ ⟨?_, ?_, ?_⟩ hp
+    · intro a x b hx ha hh
+      refine ⟨fwdPass_doneClosed env _ _ _ _ _ _ ha.1 hh, ?_⟩
+      exact fwdPass_inv env (ResOK env res0) (fun t => (env.info t).member = true)
+        (fun s s' t v hq hi _ _ h => fwdPlace_resOK env res0 s s' t v hq hi h)
+        (fun t c hq hc => (hmemb c).2 (members_children env mem hm t ((hmemb t).1 hq) c hc))
+        (fun t p hq _ he => he.trans hq) _ _ _ _ _ _ ((hmemb x).2 (members_root env mem hm x hx)) ha.2 hh
+    · intro x hx; cases hx
+    · exact ⟨[], by simp, by simp⟩
+    · intro x hx; cases hx
+  have hroots : ∀ r ∈ env.roots, r ∈ σ.done :=
+    passList_all_done _ _ (fun a x b _ hh => fwdPass_ext env _ _ _ _ _ _ hh) _ _ hp
+  exact c03Resources_of env res0 σ hf mem hm hI.1 hroots hI.2 o ho
+
+theorem backwardCalc_c03Resources (env : Env) (f0 : Uid → Fields) (res0 : List (Option Nat × Cal)) (o : Output)
+    (hf : env.flagsOK) (h : backwardCalc env f0 res0 = .ok o) : c03Resources env res0 o = true := by
+  obtain ⟨mem, σ, hm, hp, ho⟩ := bwdRun_ok env f0 res0 o (backwardCalc_run env f0 res0 o h)
+  have hmemb : ∀ t, (env.info t).member = true ↔ t ∈ mem := fun t => by rw [← memberList_eq env mem hm]; exact hf t
+  have hI : DoneClosed env σ ∧ ResOK env res0 σ := by
+    refine passList_inv (fun s => DoneClosed env s ∧ ResOK env res0 s) _ _ ?_ _ _ ⟨?_, ?_, ?_⟩ hp
+    · intro a x b hx ha hh
+      refine ⟨bwdPass_doneClosed env _ _ _ _ _ _ ha.1 hh, ?_⟩
+      exact bwdPass_inv env (ResOK env res0) (fun t => (env.info t).member = true)
+        (fun s s' t m v hq hi _ _ h => bwdPlace_resOK env res0 s s' t m v hq hi h)
+        (fun t c hq hc => (hmemb c).2 (members_children env mem hm t ((hmemb t).1 hq) c hc))
+        (fun t p hq _ he => he.trans hq) _ _ _ _ _ _
+        ((hmemb x).2 (members_root env mem hm x (List.mem_reverse.1 hx))) ha.2 hh
+    · intro x hx; cases hx
+    · exact ⟨[], by simp, by simp⟩
+    · intro x hx; cases hx
+  have hroots : ∀ r ∈ env.roots, r ∈ σ.done := fun r hr =>
+    passList_all_done _ _ (fun a x b _ hh => bwdPass_ext env _ _ _ _ _ _ hh) _ _ hp r (List.mem_reverse.2 hr)
+  exact c03Resources_of env res0 σ hf mem hm hI.1 hroots hI.2 o ho
 
 end Pj
